@@ -2092,7 +2092,9 @@ class TagNode(_ElementWrappingNode, NodeBase):
 
         return self._create_by_xpath(
             ast=ast,
-            namespaces=Namespaces(namespaces or Namespaces({"": self.namespace})),
+            namespaces=Namespaces(
+                {"": self.namespace} if namespaces is None else namespaces
+            ),
         )
 
     def _create_by_xpath(
